@@ -330,6 +330,49 @@ func rsYield(point string, arg interface{}) {
 	}
 }
 
+// ---- fault rules: make a chosen write of the client fail (build-tag hook in internal/transport) ------------
+
+var (
+	rsFaultRules []*rsYieldRule // d unused
+	rsFaultLog   *rsLog
+)
+
+func rsFault(point string, arg interface{}) error {
+	sel := rsYieldSel(arg)
+	hit := false
+	rsYieldMu.Lock()
+	for _, ru := range rsFaultRules {
+		if ru.n > 0 && ru.point == point && (ru.sel == "*" || ru.sel == sel) {
+			ru.n--
+			hit = true
+			rsYieldHits["fault:"+point+"/"+ru.sel]++
+			break
+		}
+	}
+	log := rsFaultLog
+	rsYieldMu.Unlock()
+	if !hit {
+		return nil
+	}
+	if log != nil {
+		ids := "-"
+		if mc, ok := arg.(messages.Common); ok && sel == "k" {
+			b := mc.GetMsg()
+			var xs []string
+			if len(b) >= 12 {
+				n := int(binary.LittleEndian.Uint32(b[8:]))
+				for i := 0; i < n && 12+8*i+8 <= len(b); i++ {
+					xs = append(xs, strconv.FormatUint(binary.LittleEndian.Uint64(b[12+8*i:]), 10))
+				}
+			}
+			ids = strings.Join(xs, "+")
+		}
+		// F:<sel>:<ids>: the write of this message failed (for an acknowledgement: the ids it named)
+		log.add("F:%s:%s", sel, ids)
+	}
+	return fmt.Errorf("injected transient write error")
+}
+
 // rsTeardown reports how often each yield rule actually held a goroutine.
 func rsTeardown() {
 	rsYieldMu.Lock()
@@ -422,6 +465,15 @@ func rsGzip(plain []byte) []byte {
 
 // rsResult builds the result payload for a caller kind; val is its canonical text (as dumpAny prints
 // what the call must return).
+// rsGzipRaw: the bare gzip stream of plain (rsGzip wraps it into gzip_packed)
+func rsGzipRaw(plain []byte) []byte {
+	var buf bytes.Buffer
+	w := gzip.NewWriter(&buf)
+	_, _ = w.Write(plain)
+	_ = w.Close()
+	return buf.Bytes()
+}
+
 func rsResult(kind string, tag int) (payload []byte, val string) {
 	switch kind {
 	case "o": // an object: pong carrying the caller's tag
@@ -493,9 +545,12 @@ func rsStart(kinds []string, salt int64) (*rsRun, error) {
 	key := envLCG(256, 99)
 	rsYieldMu.Lock()
 	rsYieldRules = nil
+	rsFaultRules = nil
+	rsFaultLog = log
 	rsYieldMu.Unlock()
 	mtproto.VerifYield = rsYield
 	transport.VerifYield = rsYield
+	transport.VerifFault = rsFault
 	srv := rsNewServer(key, log)
 	store := &rsStore{log: log, s: &session.Session{Key: key, Hash: envSha1(key)[12:20], Salt: salt, Hostname: srv.ln.Addr().String()}}
 	m, err := mtproto.NewMTProto(mtproto.Config{SessionStorage: store, ServerHost: srv.ln.Addr().String()})
@@ -535,6 +590,8 @@ func rsWarnClass(err error) string {
 		return "unknown-req-id"
 	case strings.Contains(s, "reconnect"):
 		return "reconnect"
+	case strings.Contains(s, "sending ack"):
+		return "ackfail" // the consequence of an injected write fault (event F), not a message the client could not handle
 	}
 	if len(s) > 40 {
 		s = s[:40]
@@ -645,6 +702,72 @@ func (r *rsRun) item(it string) (body []byte, content bool, desc string, ok bool
 		return rsCat(rsU32(rsCrcContainer), rsU32(0)), false, "cont()", true
 	case it == "b":
 		return rsCat(rsU32(rsCrcBadMsg), rsU64(4), rsU32(1), rsU32(16)), false, "badmsg(4)", true
+	case strings.HasPrefix(it, "T") || strings.HasPrefix(it, "U"): // bad_msg_notification 16 (msg_id too low) / 17 (too high) for caller i's request
+		i := atoi(it[1:])
+		f, found := r.srv.latestReq(i)
+		if !found {
+			return nil, false, "", false
+		}
+		code := uint32(16)
+		if it[0] == 'U' {
+			code = 17
+		}
+		return rsCat(rsU32(rsCrcBadMsg), rsU64(f.Mid), rsU32(f.Seq), rsU32(code)), false, fmt.Sprintf("badmsg(%d)", f.Mid), true
+	case it == "zt" || it == "zc": // gzip_packed, well framed: the 8-byte trailer is missing / carries a wrong crc32
+		// (the deflate data is complete: the client as it stands reads the pong and ignores the damaged end —
+		// what must not happen is that the damaged end stops the receive loop)
+		z := rsGzipRaw(rsCat(rsU32(rsCrcPong), rsU64(1), rsU64(2)))
+		if it == "zt" {
+			z = z[:len(z)-8]
+		} else {
+			z[len(z)-6] ^= 0x10
+		}
+		return rsCat(rsU32(rsCrcGzip), rsStr(z)), true, "pong", true
+	case strings.HasPrefix(it, "c(") && strings.HasSuffix(it, ")"): // a container of items (which may be containers)
+		inner := rsSplitParen(it[2:len(it)-1], ',')
+		body := rsCat(rsU32(rsCrcContainer), rsU32(uint32(len(inner))))
+		var descs []string
+		for _, in := range inner {
+			b, content, desc, ok := r.item(in)
+			if !ok {
+				return nil, false, "", false
+			}
+			r.srv.mu.Lock()
+			mid := r.srv.newMsgID()
+			seq := r.srv.content * 2
+			if content {
+				seq++
+				r.srv.content++
+			}
+			r.srv.mu.Unlock()
+			body = rsCat(body, rsU64(mid), rsU32(seq), rsU32(uint32(len(b))), b)
+			descs = append(descs, fmt.Sprintf("%d:%d:%s", mid, seq, desc))
+		}
+		return body, false, "cont[" + strings.Join(descs, "|") + "]", true
+	case strings.HasPrefix(it, "N"): // N<d>(<item>): the item inside d nested containers
+		open := strings.Index(it, "(")
+		if open < 0 || !strings.HasSuffix(it, ")") {
+			return nil, false, "", false
+		}
+		d := atoi(it[1:open])
+		b, content, desc, ok := r.item(it[open+1 : len(it)-1])
+		if !ok || d < 1 {
+			return nil, false, "", false
+		}
+		for lvl := 0; lvl < d; lvl++ {
+			r.srv.mu.Lock()
+			mid := r.srv.newMsgID()
+			seq := r.srv.content * 2
+			if content {
+				seq++
+				r.srv.content++
+			}
+			r.srv.mu.Unlock()
+			b = rsCat(rsU32(rsCrcContainer), rsU32(1), rsU64(mid), rsU32(seq), rsU32(uint32(len(b))), b)
+			desc = fmt.Sprintf("cont[%d:%d:%s]", mid, seq, desc)
+			content = false
+		}
+		return b, false, desc, true
 	case strings.HasPrefix(it, "Bk"): // bad_msg_notification naming the j-th msgs_ack the client wrote
 		s := r.srv
 		s.mu.Lock()
@@ -743,6 +866,18 @@ func (r *rsRun) runPlan(plan string) string {
 			if !r.srv.resend() {
 				return "bad-item:="
 			}
+		case strings.HasPrefix(st, "f"): // f<sel>:<n> — the next n writes of messages of that kind fail
+			parts := strings.Split(st[1:], ":")
+			if len(parts) != 2 {
+				return "bad-item:" + st
+			}
+			rsYieldMu.Lock()
+			rsFaultRules = append(rsFaultRules, &rsYieldRule{point: "write", sel: parts[0], n: atoi(parts[1])})
+			rsYieldMu.Unlock()
+		case strings.HasPrefix(st, "K"): // the server's clock runs this many seconds ahead of the client's
+			r.srv.mu.Lock()
+			r.srv.nextID += uint64(atoi(st[1:])) << 32
+			r.srv.mu.Unlock()
 		case strings.HasPrefix(st, "y"):
 			if !rsAddYield(st) {
 				return "bad-item:" + st
@@ -762,30 +897,6 @@ func (r *rsRun) runPlan(plan string) string {
 			// issued in that window fails with a write error (a runtime race the model does not describe);
 			// "later requests" start after it
 			time.Sleep(4 * time.Millisecond)
-		case strings.HasPrefix(st, "c("): // container
-			inner := strings.Split(strings.TrimSuffix(st[2:], ")"), ",")
-			body := rsCat(rsU32(rsCrcContainer), rsU32(uint32(len(inner))))
-			var descs []string
-			r.srv.mu.Lock()
-			for _, it := range inner {
-				r.srv.mu.Unlock()
-				b, content, desc, ok := r.item(it)
-				r.srv.mu.Lock()
-				if !ok {
-					r.srv.mu.Unlock()
-					return "bad-item:" + it
-				}
-				mid := r.srv.newMsgID()
-				seq := r.srv.content * 2
-				if content {
-					seq++
-					r.srv.content++
-				}
-				body = rsCat(body, rsU64(mid), rsU32(seq), rsU32(uint32(len(b))), b)
-				descs = append(descs, fmt.Sprintf("%d:%d:%s", mid, seq, desc))
-			}
-			r.srv.mu.Unlock()
-			r.srv.sendBody(body, false, "cont["+strings.Join(descs, "|")+"]")
 		default:
 			b, content, desc, ok := r.item(st)
 			if !ok {
@@ -839,25 +950,68 @@ type rsSent struct { // server -> client message (flattened: container members a
 }
 
 func rsFlattenR(ev string) []rsSent {
-	// R:<mid>:<seq>:<desc>   desc may be cont[mid:seq:desc|...]
+	// R:<mid>:<seq>:<desc>   desc may be cont[mid:seq:desc|...], members may be containers themselves
 	parts := strings.SplitN(ev, ":", 4)
 	mid, _ := strconv.ParseUint(parts[1], 10, 64)
 	seq, _ := strconv.ParseUint(parts[2], 10, 32)
-	desc := parts[3]
-	out := []rsSent{{mid, uint32(seq), desc}}
-	if strings.HasPrefix(desc, "cont[") {
-		out[0].desc = "cont"
-		for _, in := range strings.Split(strings.TrimSuffix(desc[5:], "]"), "|") {
-			if in == "" {
-				continue
-			}
-			p := strings.SplitN(in, ":", 3)
-			m, _ := strconv.ParseUint(p[0], 10, 64)
-			q, _ := strconv.ParseUint(p[1], 10, 32)
-			out = append(out, rsSent{m, uint32(q), p[2]})
+	return rsFlattenDesc(mid, uint32(seq), parts[3])
+}
+
+func rsFlattenDesc(mid uint64, seq uint32, desc string) []rsSent {
+	if !strings.HasPrefix(desc, "cont[") {
+		return []rsSent{{mid, seq, desc}}
+	}
+	out := []rsSent{{mid, seq, "cont"}}
+	for _, in := range rsSplitTop(strings.TrimSuffix(desc[5:], "]"), '|') {
+		if in == "" {
+			continue
 		}
+		p := strings.SplitN(in, ":", 3)
+		m, _ := strconv.ParseUint(p[0], 10, 64)
+		q, _ := strconv.ParseUint(p[1], 10, 32)
+		out = append(out, rsFlattenDesc(m, uint32(q), p[2])...)
 	}
 	return out
+}
+
+// rsSplitParen splits at sep outside parentheses.
+func rsSplitParen(s string, sep byte) []string {
+	var out []string
+	depth, start := 0, 0
+	for i := 0; i < len(s); i++ {
+		switch s[i] {
+		case '(':
+			depth++
+		case ')':
+			depth--
+		case sep:
+			if depth == 0 {
+				out = append(out, s[start:i])
+				start = i + 1
+			}
+		}
+	}
+	return append(out, s[start:])
+}
+
+// rsSplitTop splits at sep outside square brackets.
+func rsSplitTop(s string, sep byte) []string {
+	var out []string
+	depth, start := 0, 0
+	for i := 0; i < len(s); i++ {
+		switch s[i] {
+		case '[':
+			depth++
+		case ']':
+			depth--
+		case sep:
+			if depth == 0 {
+				out = append(out, s[start:i])
+				start = i + 1
+			}
+		}
+	}
+	return append(out, s[start:])
 }
 
 // rsMissingAcks: ids of content-related server messages (odd seq_no) that no msgs_ack names.
@@ -873,6 +1027,11 @@ func rsMissingAcks(evs []string) []uint64 {
 					v, _ := strconv.ParseUint(id, 10, 64)
 					acked[v] = true
 				}
+			}
+		case strings.HasPrefix(e, "F:k:"):
+			for _, id := range strings.Split(e[4:], "+") {
+				v, _ := strconv.ParseUint(id, 10, 64)
+				acked[v] = true
 			}
 		case strings.HasPrefix(e, "R:"):
 			for _, s := range rsFlattenR(e) {
